@@ -8,7 +8,7 @@ import re
 from ..cfg import Node, walk_no_nested
 from ..constfold import Folder, RegexConst, Unknown
 from ..dataflow import bind_call, chain_key, fmt_origin, origins
-from ..decide import Decider, role_of
+from ..decide import Decider, LoopFacts, role_of
 from ..loader import AnalysisError, ConstInfo, FuncInfo
 from ..regexlang import Regex, included
 from ..report import Ctx
@@ -269,24 +269,39 @@ def check_hard_break_decorator(ctx: Ctx) -> None:
     flow = prog.flow(w)
     appends = [(n, c) for n, c in flow.all_calls() if isinstance(c.func, ast.Attribute) and c.func.attr == "append" and c.args]
     ctx.require("R-HARDBREAK", "segment appends in the hard-break decorator", len(appends), 1)
-    for n, c in appends:
-        guards = direct_guards(prog, w, n)
-        last = [g for g in guards if "is_last" in norm(g[0].ast)]
-        has_bs = any(isinstance(x, ast.Constant) and x.value == "\\" for x in ast.walk(c.args[0]))
-        if last and last[0][1] == "T":
-            ctx.ob("R-HARDBREAK", f"{w.qual} :: last segment appended without marker", not has_bs,
-                   "the last segment ends the paragraph and must not get a hard-break backslash", where(w, c))
-        elif last:
-            ctx.ob("R-HARDBREAK", f"{w.qual} :: non-last segment ends with a backslash", has_bs,
-                   "each hard break of the source (backslash-newline or two spaces) must be re-emitted as backslash + newline", where(w, c))
+    heads = [h for h in flow.cfg.nodes if h.kind == "for" and any(n in flow.loop_body_nodes(h) for n, _c in appends)]
+    ctx.require("R-HARDBREAK", "segment loop in the hard-break decorator", len(heads), 1)
+    base_params = set(fac.params)
+    for h in heads:
+        facts = LoopFacts(prog, w, h)
+        got: dict[bool, set] = {}
+        for last in (True, False):
+            la = facts.last_atom(last)
+
+            def value_leaf(cur: FuncInfo, e: ast.AST, aliases: frozenset):
+                if isinstance(e, ast.Call) and isinstance(e.func, ast.Name) and e.func.id in base_params:
+                    return "SEG"
+                return None
+
+            dec = Decider(prog, lambda leaf, _al, la=la: la(leaf), value_leaf=value_leaf)
+            vals: set = set()
+            for be in [x for x, lab in h.succ if lab == "iter"]:
+                for _end, _env, _benv, outs in dec.walk(w, be, lambda n, h=h: n is h, frozenset()):
+                    for o in outs:
+                        if isinstance(o, frozenset):
+                            vals |= o
+            got[last] = vals
+        ctx.note("hard_break_segments", {("last" if k else "not last"): sorted(map(str, v)) for k, v in got.items()})
+        ctx.ob("R-HARDBREAK", f"{w.qual} :: last segment appended without marker", got[True] == {"SEG"},
+               f"the last segment ends the paragraph and must not get a hard-break backslash; on the last iteration the loop appends {sorted(map(str, got[True]))}",
+               where(w, h))
+        ctx.ob("R-HARDBREAK", f"{w.qual} :: non-last segment ends with a backslash", got[False] == {("cat", "SEG", "\\")},
+               "each hard break of the source (backslash-newline or two spaces) must be re-emitted as backslash + newline; on the other iterations "
+               f"the loop appends {sorted(map(str, got[False]))}", where(w, h))
     joins = [r for r in flow.cfg.returns() if isinstance(r.ast.value, ast.Call) and isinstance(r.ast.value.func, ast.Attribute)
              and r.ast.value.func.attr == "join" and isinstance(r.ast.value.func.value, ast.Constant)]
     ctx.ob("R-HARDBREAK", f"{w.qual} :: segments rejoined with a newline", any(r.ast.value.func.value.value == "\n" for r in joins),
            "the wrapped segments are joined by newline so that `\\\\` + newline forms the hard break", where(w, w.node))
-    # is_last is "index == len(segments) - 1"
-    il = [n for n in flow.cfg.nodes if n.kind == "stmt" and isinstance(n.ast, ast.Assign) and norm(n.ast.targets[0]) == "is_last"]
-    ok = any(_is_last_index_test(n.ast.value) for n in il)
-    ctx.ob("R-HARDBREAK", f"{w.qual} :: last-segment test", ok, "is_last must compare the segment index with len(segments) - 1", where(w, w.node))
     # the split pattern matches both hard-break spellings
     from ..constfold import Folder, Unknown
 
